@@ -234,20 +234,45 @@ def read_result_files(outdir):
     return out
 
 
+def is_number(t):
+    try:
+        float(t.replace('-nan', 'nan'))
+        return True
+    except ValueError:
+        return False
+
+
+def data_rows(name, rows):
+    """what the property speaks about: the labelled membership rows, the rows of the affinity blocks, the per-realization rows of the info file.
+    Comment lines (`# ...`) and the block headers of the affinity file (`a= 3`) are presentation: a maintainer may reword them."""
+    out = []
+    for r in rows:
+        if r is None or not r or r[0].startswith('#'):
+            continue
+        if name == 'w_out.dat' and not is_number(r[0]):
+            continue                                         # a block header such as `a= 3`
+        out.append([t.replace('-nan', 'nan') for t in r])
+    return out
+
+
+def seed_listed(rows, seed):
+    """the info file lists the seed: the supplied value occurs as a token of one of its comment lines"""
+    return any(r and r[0].startswith('#') and str(seed) in r for r in rows if r is not None)
+
+
 def compare_files(expected, got):
-    """first difference or None; a None row in expected is a wildcard line (duration)"""
+    """first difference or None (data rows only, see data_rows; the info file must also list the seed)"""
     if sorted(expected) != sorted(got):
         return 'files written: %s, expected: %s' % (sorted(got), sorted(expected))
     for name, rows in expected.items():
-        g = got[name]
-        if len(g) != len(rows):
-            return '%s: %d non-empty lines, expected %d' % (name, len(g), len(rows))
-        for n, (e, x) in enumerate(zip(rows, g)):
-            if e is None:
-                continue
+        e_rows, g_rows = data_rows(name, rows), data_rows(name, got[name])
+        if len(g_rows) != len(e_rows):
+            return '%s: %d data rows, expected %d' % (name, len(g_rows), len(e_rows))
+        for n, (e, x) in enumerate(zip(e_rows, g_rows)):
             if e != x:
-                # NaN sign is not compared
-                if [t.replace('-nan', 'nan') for t in x] == e:
-                    continue
-                return '%s line %d: %s, expected %s' % (name, n + 1, ' '.join(x), ' '.join(e))
+                return '%s data row %d: %s, expected %s' % (name, n + 1, ' '.join(x), ' '.join(e))
+        if name == 'run_info.dat':
+            seeds = [r[-1] for r in rows if r and r[:2] == ['#', 'Seed']]
+            if seeds and not seed_listed(got[name], seeds[0]):
+                return 'run_info.dat does not list the seed %s' % seeds[0]
     return None
